@@ -160,6 +160,30 @@ func kernelFailObl(ki *KernelInfo, prop string) *Obligation {
 
 var fixedFixed = []string{"SignedAsSigned", "SignedAsUnsigned", "UnsignedAsSigned", "UnsignedAsUnsigned"}
 
+// C05, last clause: floating-to-floating conversion is the plain Go conversion of the sample
+// (exact when not narrowing, round-to-nearest-even float32 when narrowing; infinities, NaN and
+// out-of-range values included, so nothing is clipped) — the extracted kernel equals it bit for bit.
+func (s *Session) lemmasC05() []*Obligation {
+	var out []*Obligation
+	key := "FloatAsFloat"
+	fi, ct := s.prog.Funcs[key], s.cf.Funcs[key]
+	if fi == nil || ct == nil {
+		return nil
+	}
+	for _, in := range s.instsFor(fi, ct) {
+		ki := s.preciseKernel(key, in)
+		if !ki.OK {
+			out = append(out, kernelFailObl(ki, "C05"))
+			continue
+		}
+		u := ki.U
+		ctx := NewCtx()
+		x := ctx.Const("x", fpSort(ki.S))
+		out = append(out, lemmaObl("plain-conversion", key, in.Name, "C05", ctx, nil, Eq(ki.apply(x), u.preciseConv(x, ki.S, ki.D)), "QF_FP"))
+	}
+	return out
+}
+
 // C06: order and reference levels.
 func (s *Session) lemmasC06() []*Obligation {
 	var out []*Obligation
